@@ -86,6 +86,10 @@ class AccessMixin(object):
       for c in cls.mro():
         if name in c.nested:
           return VClass(c.nested[name])
+      ov = getattr(self.ctx.registry, 'class_attr_overrides', {})
+      for c_ in (cls.mro() if isinstance(cls, ClassInfo) else []):
+        if (c_.name, name) in ov:
+          return ov[(c_.name, name)](self, st)
       owner, expr = cls.find_class_attr(name)
       if expr is not None:
         return self.eval_module_const(st, owner.module, expr)
@@ -135,7 +139,12 @@ class AccessMixin(object):
     if isinstance(cls, str):
       if cls == 'logger':
         return [(st, VBuiltin('logger.' + name, _logger_method(name), bound=v))]
+      if cls == 'colorama':
+        return [(st, VStr(z3.StringVal('')))]       # terminal colour codes: console decoration only
       if cls == 'CONF':
+        tm = self.ctx.registry.trusted_method('CONF', name)
+        if tm is not None:
+          return [(st, VBuiltin('CONF.%s' % name, tm, bound=v))]
         return [(st, self.conf_value(st, name))]
       if cls.startswith('gen:') and name == 'send':
         return [(st, VBuiltin('%s.send' % cls, lambda ex, s, a, k: ex.co_resume(s, a[0], a[1]), bound=v))]
@@ -196,6 +205,10 @@ class AccessMixin(object):
               out.append((s, VFunc(impl, bound=VRef(owner, v.t, elem=v.elem))))
           return out
       return [(st, VFunc(m, bound=v))]
+    ov = getattr(self.ctx.registry, 'class_attr_overrides', {})
+    for c_ in cls.mro():
+      if (c_.name, name) in ov:
+        return [(st, ov[(c_.name, name)](self, st))]
     owner, expr = cls.find_class_attr(name)
     if expr is not None:
       return [(st, self.eval_module_const(st, owner.module, expr))]
@@ -359,12 +372,23 @@ class AccessMixin(object):
       return [(st, self.dict_load(st, c, k))]
     if isinstance(c, VPyDict) and isinstance(k, VEnum):
       out = []
+      miss = []
       for key, v in c.d.items():
         if isinstance(key, tuple) and key[0] == 'enum' and key[1] == k.enum.name:
+          miss.append(k.t != key[2])
           for s, hit in self.branch(st.fork(), k.t == key[2]):
             if hit:
               out.append((s, v))
+      default = getattr(c, 'default', None)
+      if default is not None:
+        # collections.defaultdict: a missing key yields default_factory()
+        s = st.fork()
+        s.assume(z3.And(*miss) if miss else z3.BoolVal(True))
+        if self.feasible(s):
+          out.extend(self.call(s, default, [], {}, node))
       return out
+    if isinstance(c, VPyDict) and not isinstance(k, VStr) and getattr(c, 'default', None) is not None:
+      return self.call(st, c.default, [], {}, node)          # defaultdict: a key it cannot hold yields default_factory()
     if isinstance(c, VPyDict):
       ks = z3.simplify(k.t) if isinstance(k, VStr) else None
       if ks is not None and z3.is_string_value(ks):
@@ -453,6 +477,9 @@ class AccessMixin(object):
         n = self.list_len(s, cv)
         idx = self.norm_index(s, i, n, node, 'list assignment index out of range')
         self.list_set(s, cv, None, z3.Store(self.list_items(s, cv), idx, self.to_val(s, v)))
+        out.append((s, None))
+      elif isinstance(cv, VPyDict) and isinstance(k, VEnum) and z3.is_int_value(z3.simplify(k.t)):
+        cv.d[('enum', k.enum.name, z3.simplify(k.t).as_long())] = v
         out.append((s, None))
       elif isinstance(cv, VPyDict):
         ks = z3.simplify(k.t)
